@@ -400,6 +400,15 @@ func vfC03(c *hx.Ctx) {
 								cf.Writes[0] = append(cf.Writes[0], 16, 16, 16, 16, 16, 16, 16, 16)
 							}
 							grid = append(grid, vfNamedCfg{fmt.Sprintf("%s/rcv_wnd=%d/nc=%d/nodelay=%d/pause=%dms after %d segs", mode, w, nc, nd[0], pauseMs, after), cf})
+							if (after == 0 || after == 2) && (pauseMs == 700 || pauseMs == 5000) && w <= 2 {
+								// the same on a process that has been up for weeks: the millisecond clock in the upper half of its range, and about to
+								// wrap (probe timers are armed and compared on that clock)
+								for _, clk := range []uint32{1<<31 + 12345, 1<<32 - 3000} {
+									cc := cf
+									cc.Clk0 = clk
+									grid = append(grid, vfNamedCfg{fmt.Sprintf("%s/rcv_wnd=%d/nc=%d/nodelay=%d/pause=%dms after %d segs/clock0=%d", mode, w, nc, nd[0], pauseMs, after, clk), cc})
+								}
+							}
 							if pauseMs >= 5000 {
 								cf.OutageAfterResumeMs = 1000
 								cf.CtrlDropN = 2
